@@ -504,14 +504,14 @@ def resolveArg : Nat → Ctx → Ty → Arg → BRes RArg
             | .failed be => .ok (.failed be)
       go xs []
     | .dict kvs =>
-      let rec go (kvs : List (String × Arg)) (acc : List (String × GoVal)) : BRes RArg :=
+      let rec goMap (kvs : List (String × Arg)) (acc : List (String × GoVal)) : BRes RArg :=
         match kvs with
         | [] => .ok (.val (.gomap acc))
         | (k, x) :: rest =>
           (resolveArg fuel c (elemTy t) x).bind fun r => match r with
-            | .val v => go rest (Cog.OMap.rset k v acc)
+            | .val v => goMap rest (Cog.OMap.rset k v acc)
             | .failed be => .ok (.failed be)
-      go kvs []
+      goMap kvs []
 
 def resolveArgs (fuel : Nat) (c : Ctx) : List Argument → List Arg → BRes (List RArg)
   | [], [] => .ok []
